@@ -878,6 +878,27 @@ func (tr *intTr) lazy1(t *Term) *Poly {
 			r.iv = kiv(big0, big1)
 			return r
 		}
+		// x ^ c for a constant with few set bits: each set bit k flips bit k of x:
+		//   x ^ 2^k = x + 2^k * (1 - 2*bit_k(x)),   bit_k(x) = floor(x/2^k) - 2*floor(x/2^(k+1))
+		if b.IsConst() {
+			nbits := 0
+			for k := 0; k < b.val.BitLen(); k++ {
+				if b.val.Bit(k) == 1 {
+					nbits++
+				}
+			}
+			if nbits <= 2 {
+				r := ca
+				for k := 0; k < b.val.BitLen(); k++ {
+					if b.val.Bit(k) == 0 {
+						continue
+					}
+					bit := pSub(tr.divPoly(ca, pow2(k)), pScale(tr.divPoly(ca, pow2(k+1)), big.NewInt(2)))
+					r = pAdd(r, pScale(pSub(pConst(big1), pScale(bit, big.NewInt(2))), pow2(k)))
+				}
+				return r
+			}
+		}
 		fail("int translation: bvxor of symbolic operands (%s ^ %s)", termString(a, 2), termString(b, 2))
 	case OIte:
 		return tr.itePoly(tr.boolean(t.args[0]), tr.lazy(t.args[1]), tr.lazy(t.args[2]))
